@@ -731,6 +731,15 @@ func (ds *AnySource) writeControlStart(config *WriteControlConfig) error {
 				len(config.MapInternalOnly.Pixels), ds.nchan/ds.channelsPerPixel, ds.nchan, ds.channelsPerPixel)}
 		}
 	}
+	if config.MapInternalOnly != nil {
+		// Pixels are looked up below as Pixels[channelNumber-1]: every channel number must have one.
+		for _, channelNumber := range ds.chanNumbers {
+			if channelNumber < 1 || channelNumber > len(config.MapInternalOnly.Pixels) {
+				return mapError{msg: fmt.Sprintf("map error: channel number %v has no pixel in a map of %v pixels",
+					channelNumber, len(config.MapInternalOnly.Pixels))}
+			}
+		}
+	}
 	path := ds.writingState.BasePath
 	if len(config.Path) > 0 {
 		path = config.Path
